@@ -1279,6 +1279,19 @@ func conv(t_dst, t_src types.Type, x value) value {
 			// To at least preserve type-safety, we'll
 			// just return the zero value of the
 			// destination type.
+			//
+			// gosym: values are structural, so a pointer to a struct cell may be viewed as a pointer to another
+			// struct type with the same number of fields (harness code mirroring time.Time's layout).
+			if pt, ok := ut_dst.(*types.Pointer); ok {
+				if st, ok := pt.Elem().Underlying().(*types.Struct); ok {
+					if p := x.(unsafe.Pointer); p != nil {
+						cell := (*value)(p)
+						if sv, ok := (*cell).(structure); ok && len(sv) == st.NumFields() {
+							return cell
+						}
+					}
+				}
+			}
 			return zero(t_dst)
 		}
 
